@@ -367,7 +367,7 @@ sx_parse_(const char *s, const size_t n, const size_t i)
     if (rv.status == SXS_FOUND_LIST) {
         return sx_parse_list(s, n, rv.position);
     }
-    if (i >= n && rv.node == NULL) {
+    if (rv.status == SXS_SUCCESS && rv.node == NULL) {
         rv.status = SXS_UNEXPECTED_END;
         return rv;
     }
